@@ -122,6 +122,17 @@ where
             // The move would either not change the imbalance, or increase it.
             break;
         }
+        // With floating-point weights `imbalance` is a rounded difference: make
+        // sure the two parts really get closer, otherwise the same weight could
+        // be moved back and forth forever.
+        let new_overweight_load = part_loads[overweight_part] - nearest_weight;
+        let mut new_underweight_load = part_loads[underweight_part];
+        new_underweight_load += nearest_weight;
+        if new_overweight_load < new_underweight_load
+            && !(new_underweight_load - new_overweight_load < imbalance)
+        {
+            break;
+        }
         partition[id] = underweight_part;
         part_loads[overweight_part] = part_loads[overweight_part] - nearest_weight;
         part_loads[underweight_part] += nearest_weight;
